@@ -80,6 +80,8 @@ pub enum Expr {
   LitOp(SV, Bop, SV),
   /// `m{key}`
   MapGet(String, SV),
+  /// call of a user function of the session prelude; arguments are literals or variables
+  Call(String, Vec<Expr>),
 }
 
 #[derive(Clone, Debug, PartialEq, Eq, Hash, Serialize, Deserialize)]
@@ -97,6 +99,8 @@ pub enum Op {
   /// op-assignment through a non-bracket subscript: `r.f += E`, `t.2 -= E`, `m{key} *= E`
   /// (`sel` is the rendered selector: ".f", ".2", `{"a"}`)
   SelOpAssign { name: String, sel: String, op: Bop, e: Expr },
+  /// verbatim text that defines no variable (the function prelude); must be accepted, changes no binding
+  Raw { text: String },
 }
 
 impl Op {
@@ -114,6 +118,7 @@ impl Op {
       Op::Read { .. } => "read",
       Op::MapAssign { .. } => "map-assign",
       Op::SelOpAssign { .. } => "selector-op-assign",
+      Op::Raw { .. } => "prelude",
     }
   }
   pub fn target(&self) -> Option<&str> {
@@ -138,6 +143,7 @@ impl Op {
       Op::Read { e } => e.render(),
       Op::MapAssign { name, key, e } => format!("{}{{{}}} = {}", name, render_lit(key), e.render()),
       Op::SelOpAssign { name, sel, op, e } => format!("{}{} {}= {}", name, sel, op.sym(), e.render()),
+      Op::Raw { text } => text.clone(),
     }
   }
 }
@@ -154,12 +160,13 @@ impl Expr {
       Expr::TupElem(n, k) => format!("{}.{}", n, k),
       Expr::LitOp(a, op, b) => format!("{} {} {}", render_lit(a), op.sym(), render_lit(b)),
       Expr::MapGet(n, k) => format!("{}{{{}}}", n, render_lit(k)),
+      Expr::Call(f, args) => format!("{}({})", f, args.iter().map(|a| a.render()).collect::<Vec<_>>().join(", ")),
     }
   }
   pub fn form(&self) -> &'static str {
     match self {
       Expr::Lit(_) => "lit", Expr::Var(_) => "var", Expr::VarOp(..) => "var-op-lit", Expr::VarVar(..) => "var-op-var",
-      Expr::VarIdx(..) => "var-idx", Expr::Field(..) => "field", Expr::TupElem(..) => "tuple-elem", Expr::LitOp(..) => "lit-op-lit", Expr::MapGet(..) => "map-get",
+      Expr::VarIdx(..) => "var-idx", Expr::Field(..) => "field", Expr::TupElem(..) => "tuple-elem", Expr::LitOp(..) => "lit-op-lit", Expr::MapGet(..) => "map-get", Expr::Call(..) => "call",
     }
   }
   pub fn vars(&self) -> Vec<&str> {
@@ -167,6 +174,7 @@ impl Expr {
       Expr::Lit(_) | Expr::LitOp(..) => vec![],
       Expr::Var(n) | Expr::VarOp(n, ..) | Expr::Field(n, _) | Expr::TupElem(n, _) | Expr::MapGet(n, _) => vec![n],
       Expr::VarVar(a, _, b) => vec![a, b],
+      Expr::Call(_, args) => args.iter().flat_map(|a| a.vars()).collect(),
       Expr::VarIdx(n, s) => {
         let mut v = vec![n.as_str()];
         match s {
@@ -220,6 +228,7 @@ pub fn render_lit(v: &SV) -> String {
 /// Render validation: does the parsed tree hold exactly the intended statement?
 pub fn tree_matches(op: &Op, tree: &Program) -> bool {
   let items = match crate::node::code_items(tree) { Some(i) => i, None => return false };
+  if let Op::Raw { .. } = op { return !items.is_empty() && items.iter().all(|i| matches!(i, MechCode::FunctionDefine(_))); }
   if items.len() != 1 { return false; }
   match (op, items[0]) {
     (Op::Define { name, mutable, annot, .. }, MechCode::Statement(Statement::VariableDefine(d))) =>
@@ -249,6 +258,7 @@ pub fn tree_matches(op: &Op, tree: &Program) -> bool {
     (Op::Destructure { names, .. }, MechCode::Statement(Statement::TupleDestructure(t))) =>
       t.vars.iter().map(|v| v.to_string()).collect::<Vec<_>>() == *names,
     (Op::Read { .. }, MechCode::Expression(_)) => true,
+    (Op::Raw { .. }, _) => true,
     (Op::SelOpAssign { name, .. }, MechCode::Statement(Statement::OpAssign(a))) =>
       a.target.name.to_string() == *name && match &a.target.subscript {
         Some(s) if s.len() == 1 => matches!(&s[0], Subscript::Dot(_) | Subscript::DotInt(_) | Subscript::Brace(_)),
